@@ -116,6 +116,9 @@ func runC04(c *vh.Ctx) {
 			unf, fol, stable := evalPolicyBoth(p, env.Env)
 			c.Res.OracleChecks++
 			payload := map[string]any{"policy": vh.EncPolicy(p), "envref": b.EnvRef(env)}
+			if stable && vh.PolicyOrderSensitive(p, env.Env) {
+				stable = false // record literal with two differently failing entries (C14 finding): no single result
+			}
 			if !stable {
 				c.Dist("impl-nondeterministic")
 			} else {
